@@ -152,7 +152,11 @@ func genAmt(t *rapid.T) VSpec {
 }
 
 func genRel(t *rapid.T) VSpec {
-	switch pickW(t, "rk", 3, 1, 2, 2) {
+	switch pickW(t, "rk", 3, 1, 2, 2, 2, 1) {
+	case 4:
+		return VSpec{"over", uint64(rapid.IntRange(1, 6).Draw(t, "p"))}
+	case 5:
+		return VSpec{"chain", uint64(rapid.IntRange(1, 3).Draw(t, "p"))}
 	case 0:
 		return VSpec{"used", uint64(rapid.IntRange(0, 3).Draw(t, "p"))}
 	case 1:
@@ -236,6 +240,7 @@ func alphabet() []tok {
 		{"mem 2^63", Spec{Op: "mem", Amt: abs(1 << 63)}, 0},
 		{"rel 1", Spec{Op: "rel", Amt: abs(1)}, 0},
 		{"rel all", Spec{Op: "rel", Amt: VSpec{"used", 0}}, 0},
+		{"rel used+2", Spec{Op: "rel", Amt: VSpec{"over", 2}}, 0},
 		{"stop", Spec{Op: "stop"}, 0},
 		{"kill", Spec{Op: "kill"}, 0},
 		{"call{cpu=10,mem=10}(", Spec{Op: "call", Def: defOf(abs(10), abs(10), z, z, z, 0)}, 1},
@@ -383,7 +388,9 @@ func TestC07(t *testing.T) {
 	rec := ev.New("C07")
 	defer Finish(t, rec)
 	debug.SetGCPercent(400)
-	rec.Rule("(a) rapid state machine over golua's Go context API (PushContext/PopContext/RequireCPU/RequireMem/ReleaseMem/SetStopLevel/Thread.CallContext with nested bodies), limits and amounts drawn from {0=unlimited, 1, 2, small, parent-remaining-1/+0/+1, soft-remaining±1, 2^63±2, 2^64-3..2^64-1}, flag subsets, huge-or-zero time limits; after every step the whole Parent() chain is compared with the big-integer model internal/ctxref (hard, soft, used, flags, status, Due) and the property's statements are checked on the observed values (child hard <= parent remaining, soft <= hard, flags superset, used < hard, net granted work under every finite limit < limit). (b) all action sequences up to a depth bound over a 26-token alphabet. (c) generated Lua programs (nesting depth <= 4) of runtime.callcontext/pcall/coroutines with tight, medium and ample budgets, checked by relations between context reports taken before/inside/after each call. Non-trivial: a context is terminated at depth >= 2, or ending a context re-charges a parent to within 2 units of its hard limit, or an amount is within 2 of 2^63 or 2^64 (machine); a kill inside a nested context (Lua); distinct by hash of the executed action list / program.")
+	rec.Rule("(a) rapid state machine over golua's Go context API (PushContext/PopContext/RequireCPU/RequireMem/ReleaseMem/SetStopLevel/Thread.CallContext with nested bodies), limits and amounts drawn from {0=unlimited, 1, 2, small, parent-remaining-1/+0/+1, soft-remaining±1, 2^63±2, 2^64-3..2^64-1}, flag subsets, huge-or-zero time limits; after every step the whole Parent() chain is compared with the big-integer model internal/ctxref (hard, soft, used, flags, status, Due) and the property's statements are checked on the observed values (child hard <= parent remaining, soft <= hard, flags superset, used < hard, net granted work under every finite limit < limit). (b) all action sequences up to a depth bound over a 27-token alphabet. (c) generated Lua programs (nesting depth <= 4) of runtime.callcontext/pcall/coroutines with tight, medium and ample budgets, checked by relations between context reports taken before/inside/after each call. Non-trivial: a context is terminated at depth >= 2, or ending a context re-charges a parent to within 2 units of its hard limit, or an amount is within 2 of 2^63 or 2^64 (machine); a kill inside a nested context (Lua); distinct by hash of the executed action list / program.")
+	rec.Assume("a hard limit counts as the context's own only if it was requested and is strictly smaller than what the enclosing context had left; a context terminated by a limit it inherited is ended by Thread.CallContext (pcall, runtime.callcontext) together with every enclosing context up to and including the owner of the limit; contexts pushed with PushContext by the embedder are ended by the embedder (the harness), which terminates nothing else; forced kills (killcontext, HardStop) end one context only")
+	rec.Assume("ReleaseMem of more than the current context has used gives the rest back in the enclosing contexts, saturating at 0 at each level")
 	rec.Assume("time limits are data only: finite time limits are >= 2^40 ms so the clock never terminates anything; the parent's clock consumption at push time is read from golua and fed to the model as an input")
 	rec.Assume("a resource without any finite hard or soft limit in a context is not observable: its 'used' figure is not compared")
 	rec.Assume("a soft stop requested on a context before a child is created: the child may or may not be due for that reason alone (documentation silent); golua inherits it")
@@ -528,7 +535,8 @@ func TestC07(t *testing.T) {
 	if !part("lua") {
 		nLua = 1
 	}
-	okA := RunRapid(rec, "C07/machine", nMachine, 0, func(t *rapid.T) {
+	_ = nMachine
+	okA := !part("machine") || RunRapid(rec, "C07/machine", nMachine, 0, func(t *rapid.T) {
 		var x *machine
 		if rapid.IntRange(0, 9).Draw(t, "own-runtime") == 0 {
 			// a runtime of its own, no base context: PopContext on the root is reachable
